@@ -209,6 +209,37 @@ theorem pos_of_orth_timelike (u y : Fin (n + 1) → K) (hy : mink y y < 0) (h : 
 end ordered
 end GT.Targets
 
+/-! ### the upper-sheet representative (`origin_to`, repaired) -/
+namespace GT.Targets
+section sheet
+variable {K : Type*} [Field K] [LinearOrder K] [IsStrictOrderedRing K] {n : ℕ} {r : K → K}
+
+theorem sheetSign_mul_self (x : Fin (n + 1) → K) : sheetSign x * sheetSign x = 1 := by
+  unfold sheetSign; split_ifs <;> ring
+
+theorem sheetSign_ne_zero (x : Fin (n + 1) → K) : sheetSign x ≠ 0 := by
+  intro h; have := sheetSign_mul_self x; rw [h] at this; simp at this
+
+theorem sheetSign_div (x : Fin (n + 1) → K) (c : K) (hc : 0 < c) :
+    sheetSign (fun i => x i / c) = sheetSign x := by
+  unfold sheetSign
+  have : (x 0 / c < 0) ↔ (x 0 < 0) := by
+    constructor
+    · intro h; by_contra h'; exact absurd h (not_lt.2 (div_nonneg (not_lt.1 h') hc.le))
+    · intro h; exact div_neg_of_neg_of_pos h hc
+  simp only [this]
+
+/-- the time coordinate of the upper-sheet representative is non-negative -/
+theorem upperSheet_zero_nonneg (x : Fin (n + 1) → K) : 0 ≤ upperSheet x 0 := by
+  unfold upperSheet sheetSign; split_ifs with h <;> [linarith; (have := not_lt.1 h; linarith)]
+
+theorem mink_upperSheet (x y : Fin (n + 1) → K) (σ : K) (hσ : σ * σ = 1) :
+    mink (fun i => σ * x i) (fun i => σ * y i) = mink x y := by
+  rw [mink_mul_left, mink_mul_right, ← mul_assoc, hσ, one_mul]
+
+end sheet
+end GT.Targets
+
 /-! ### regular polygons -/
 namespace GT.Targets
 
